@@ -115,33 +115,8 @@ def index (c : Case) : List String :=
 
 /-! ### C19 -/
 
-/-- character classes for the generator's alphabet: ASCII plus Latin-1 letters -/
-def uniCC : ASN.CC where
-  isWs c := c = 32 || (9 ≤ c && c ≤ 13) || c = 0x85 || c = 0xA0
-  isAlpha c := (65 ≤ c && c ≤ 90) || (97 ≤ c && c ≤ 122) || (0xC0 ≤ c && c ≤ 0xFF && c ≠ 0xD7 && c ≠ 0xF7) || c = 0xAA || c = 0xB5 || c = 0xBA
-  isAlnum c := (65 ≤ c && c ≤ 90) || (97 ≤ c && c ≤ 122) || (48 ≤ c && c ≤ 57) ||
-    (0xC0 ≤ c && c ≤ 0xFF && c ≠ 0xD7 && c ≠ 0xF7) || c = 0xAA || c = 0xB5 || c = 0xBA || c = 0xB2 || c = 0xB3 || c = 0xB9 || (0xBC ≤ c && c ≤ 0xBE)
-  lower c := if 65 ≤ c && c ≤ 90 then c + 32 else if 0xC0 ≤ c && c ≤ 0xDE && c ≠ 0xD7 then c + 32 else c
-
-/-- UTF-8 bytes → code points (well-formed input assumed; the harness only sends valid UTF-8) -/
-def utf8Decode : List Nat → List Nat
-  | [] => []
-  | b :: rest =>
-    if b < 0x80 then b :: utf8Decode rest
-    else if b < 0xE0 then
-      match rest with
-      | b1 :: r => ((b % 32) * 64 + b1 % 64) :: utf8Decode r
-      | _ => []
-    else if b < 0xF0 then
-      match rest with
-      | b1 :: b2 :: r => ((b % 16) * 4096 + (b1 % 64) * 64 + b2 % 64) :: utf8Decode r
-      | _ => []
-    else
-      match rest with
-      | b1 :: b2 :: b3 :: r => ((b % 8) * 262144 + (b1 % 64) * 4096 + (b2 % 64) * 64 + b3 % 64) :: utf8Decode r
-      | _ => []
-termination_by l => l.length
-decreasing_by all_goals (simp_wf; try omega)
+/-- the driver's character classes: `ASN.rustCC` -/
+def uniCC : ASN.CC := ASN.rustCC
 
 def utf8Encode (cps : List Nat) : List Nat :=
   cps.flatMap fun c =>
